@@ -21,6 +21,7 @@ PERSISTENT_ROOTS = {
     "xsdata.formats.dataclass.models.elements:XmlMeta": "cached class metadata (shared through XmlContext.cache)",
     "xsdata.formats.dataclass.models.elements:XmlVar": "cached field metadata (shared through XmlMeta)",
     "xsdata.formats.converter:ConverterFactory": "module singleton `converter`",
+    "xsdata.formats.converter:Converter": "converter instances held by the process-wide registry",
     "xsdata.formats.dataclass.compat:ClassTypes": "module singleton `class_types`",
     "xsdata.formats.dataclass.parsers.mixins:PushParser": "parser instances (XmlParser, TreeParser, UserXmlParser, RecordParser)",
     "xsdata.formats.dataclass.parsers.dict:DictDecoder": "decoder instances (DictDecoder, JsonParser)",
